@@ -401,6 +401,10 @@ def compare(m0, m1, pre, rep):
         fail(pre + "is_in_data", "is_in_data differs after the round trip", rep)
     for c in "xy":
         a, b = m0[c], m1[c]
+        if n == 1 and a is None and b is not None and [float(v) for v in b["d"]] == [0.0]:
+            # a one-point map: an absent coordinate is stored as 0 and read back as the array [0]; the public
+            # x / y / dx / dy / shape / row / col are the same for both (None for a constant coordinate array)
+            continue
         if (a is None) != (b is None) or (a is not None and not arr_same(a, b)):
             cause = "prop-reserved" if c in m0["props"] else "other"
             fail(pre + f"coord:{cause}", f"{c} coordinates differ after the round trip", rep)
@@ -461,6 +465,12 @@ def compare(m0, m1, pre, rep):
         if i not in m1["phases"]:
             continue
         p, r = m0["phases"][i], m1["phases"][i]
+        if "phase_id" in m0["props"] and jrec(p) != jrec(r):
+            # the property's values replaced the phase ids, so the constructor re-keyed the phase list: an id kept by
+            # chance now names another phase (seed 0, n = 2400: ids {0, 1, 10} became {10, 11, 12})
+            fail(pre + "phases:prop-reserved", f"phase {i} is another phase after the round trip: the property named "
+                 f"phase_id replaced the phase ids", rep)
+            continue
         if i == "-1" and any(p[f] != r[f] for f in ("name", "color")):
             fail(pre + "phases:not-indexed-reset", f"the not-indexed phase {p['name']!r}/{p['color']} was reset to "
                  f"{r['name']!r}/{r['color']}", rep)
